@@ -119,6 +119,7 @@ structure StepOut where
   postOrder : List String
   fs : FS
   freshPts : AList String    -- payee templates of the model's own rebuild on `fs`
+  quiet : Bool := true       -- no buffer differs from its file after this step
 
 structure Sim where
   root : String
@@ -126,20 +127,39 @@ structure Sim where
   order0 : List String
   steps : List StepOut
 
-def simulate (cfg : Cfg) (fs0 : FS) (ups : List (String × Contrib)) : Sim :=
+/-- `modes`: per update "both" (default: the edit reaches the workspace as didChange, then the
+    file is written and didSave repeats it), "change" (didChange only: the buffer now differs
+    from the file on disk) or "save" (the file is written with this text and didSave arrives). -/
+def simulate (cfg : Cfg) (fs0 : FS) (ups : List (String × Contrib)) (modes : List String := []) : Sim :=
   let w0 := init cfg fs0
   let (v0, w) := observe w0
-  let rec go (fs : FS) (w : WS) : List (String × Contrib) → List StepOut
+  let rec go (fs : FS) (w : WS) (dirty : List String) : List ((String × Contrib) × String) → List StepOut
     | [] => []
-    | (n, c) :: rest =>
-      let w1 := updateFile cfg fs w n c
-      let (mid, w1') := observe w1
-      let fs' := fs.set n c
-      let w2 := updateFile cfg fs' w1' n c
-      let (post, w2') := observe w2
-      { mid := mid, midOrder := w1.order, post := post, postOrder := w2.order, fs := fs',
-        freshPts := (init cfg fs').idx.pts } :: go fs' w2' rest
-  { root := w0.root, init := v0, order0 := w0.order, steps := go fs0 w ups }
+    | ((n, c), mode) :: rest =>
+      if mode == "change" then
+        let w1 := updateFile cfg fs w n c
+        let (mid, w1') := observe w1
+        let dirty' := if dirty.contains n then dirty else n :: dirty
+        { mid := mid, midOrder := w1.order, post := mid, postOrder := w1.order, fs := fs,
+          freshPts := (init cfg fs).idx.pts, quiet := false } :: go fs w1' dirty' rest
+      else if mode == "save" then
+        let fs' := fs.set n c
+        let w2 := updateFile cfg fs' w n c
+        let (post, w2') := observe w2
+        let dirty' := dirty.filter (· != n)
+        { mid := post, midOrder := w2.order, post := post, postOrder := w2.order, fs := fs',
+          freshPts := (init cfg fs').idx.pts, quiet := dirty'.isEmpty } :: go fs' w2' dirty' rest
+      else
+        let w1 := updateFile cfg fs w n c
+        let (mid, w1') := observe w1
+        let fs' := fs.set n c
+        let w2 := updateFile cfg fs' w1' n c
+        let (post, w2') := observe w2
+        let dirty' := dirty.filter (· != n)
+        { mid := mid, midOrder := w1.order, post := post, postOrder := w2.order, fs := fs',
+          freshPts := (init cfg fs').idx.pts, quiet := dirty'.isEmpty } :: go fs' w2' dirty' rest
+  { root := w0.root, init := v0, order0 := w0.order,
+    steps := go fs0 w [] (ups.zip (modes ++ List.replicate ups.length "both")) }
 
 def outView (v : View) : Json := viewJson v
 
@@ -152,7 +172,8 @@ def run (j : Json) : Json := Id.run do
   let implSteps := (jarr impl "steps").toList
   let fs0 : FS := files
   let upσ := ups
-  let sim := simulate cfg fs0 upσ
+  let modes := (jarr j "ups").toList.map fun u => if jhas u "mode" then jstr u "mode" else "both"
+  let sim := simulate cfg fs0 upσ modes
   let freshOf := fun (fs : FS) =>
     let wf := init cfg fs
     (outView (observe wf).1).setObjVal! "root" (Json.str wf.root)
@@ -183,9 +204,9 @@ def run (j : Json) : Json := Id.run do
   if !f0.isEmpty then why := why ++ [s!"after Initialize: view differs from the specification in {f0}"]
   if !why.isEmpty then unexplained := true
   -- variants of the model with the repairs switched on, to attribute failures
-  let simG := if cfg.fixG then sim else simulate { cfg with fixG := true } fs0 upσ
-  let simGT := simulate { cfg with fixG := true, fixT := true } fs0 upσ
-  let simT := if cfg.fixT then sim else simulate { cfg with fixT := true } fs0 upσ
+  let simG := if cfg.fixG then sim else simulate { cfg with fixG := true } fs0 upσ modes
+  let simGT := simulate { cfg with fixG := true, fixT := true } fs0 upσ modes
+  let simT := if cfg.fixT then sim else simulate { cfg with fixT := true } fs0 upσ modes
   let mut i := 0
   for is in implSteps do
     match sim.steps[i]? with
@@ -195,7 +216,10 @@ def run (j : Json) : Json := Id.run do
       if !fw.isEmpty then
         why := why ++ fw
         unexplained := true
-      if rootOf s.fs != root then
+      if !s.quiet then
+        -- a buffer differs from its file: "the final contents" are not defined until it is saved
+        pure ()
+      else if rootOf s.fs != root then
         if !known.contains "root-not-reselected" then known := known ++ ["root-not-reselected"]
         why := why ++ [s!"step {i}: a rebuild selects the root {rootOf s.fs}, the workspace keeps {root}"]
       else
@@ -247,7 +271,8 @@ def runMembers (j : Json) : Json := Id.run do
   let impl := jget j "impl"
   let implSteps := (jarr impl "steps").toList
   let fs0 : FS := files
-  let sim := simulate cfg fs0 ups
+  let modes := (jarr j "ups").toList.map fun u => if jhas u "mode" then jstr u "mode" else "both"
+  let sim := simulate cfg fs0 ups modes
   let stepsJ := sim.steps.map fun s =>
     Json.mkObj [("mid", jstrs s.mid.members), ("midOrder", jstrs s.midOrder),
       ("post", jstrs s.post.members), ("postOrder", jstrs s.postOrder)]
@@ -266,7 +291,7 @@ def runMembers (j : Json) : Json := Id.run do
     match sim.steps[i]? with
     | none => pure ()
     | some s =>
-      if HL.Spec.Rebuild.rootOf s.fs == root then
+      if s.quiet && HL.Spec.Rebuild.rootOf s.fs == root then
         if !HL.Spec.Rebuild.membersOk (HL.Spec.Rebuild.rebuildAt cfg.limit root s.fs) (memView (parseStrs is "post")) then
           why := why ++ [s!"step {i}: the workspace's files are not the files reachable from the root"]
     i := i + 1
